@@ -2,7 +2,7 @@
 Require Import Parser Api.
 Require Lex.
 Require Import ParserErrTok.
-Require LexProof LexFuel.
+Require LexProof LexFuel LexPeek.
 From Coq Require Import List String.
 
 (* for EVERY rune classification: each proper token's text, preceded only by skipped whitespace (space, tab, CR, LF), is the
@@ -27,7 +27,20 @@ Theorem C16_lexical_error_rejects : forall (o : oracle) (df : string) (ts : list
   ends_in_err ts -> match parse_toks o df ts with PTree _ => False | _ => True end.
 Proof. exact lex_error_rejects. Qed.
 
+(* the Lexer object (Model/Lex.v lstate, lnext, lpeek): in every state reachable by reads, Peek returns exactly the token the next
+   read returns (including the currItem = EOF shortcut); Peek hands no state back, so it cannot affect the stream *)
+Theorem C16_peek_is_next : forall (cl : Lex.classes) (s : Lex.bytes) (st : Lex.lstate),
+  LexPeek.reachable cl s st -> Lex.lpeek cl st = fst (Lex.lnext cl st).
+Proof. exact LexPeek.peek_is_next. Qed.
+
+(* after the end of input or a lexical error every further read reports end-of-input *)
+Theorem C16_eof_forever : forall (cl : Lex.classes) (st : Lex.lstate), LexPeek.ended (fst (Lex.lnext cl st)) = true ->
+  forall k, fst (Lex.lnext cl (LexPeek.reads cl k (snd (Lex.lnext cl st)))) = Lex.eof_tok.
+Proof. exact LexPeek.eof_forever. Qed.
+
 Print Assumptions C16_next_token_lossless.
+Print Assumptions C16_peek_is_next.
+Print Assumptions C16_eof_forever.
 Print Assumptions C16_stream_is_a_segmentation.
 Print Assumptions C16_finitely_many_tokens.
 Print Assumptions C16_lexical_error_rejects.
